@@ -18,7 +18,8 @@ def graph_clustering(adjacency_matrix, nodes, clustering='cc', **kwargs):
 
     Returns: DataFrame with columns seq, cluster assignment 
     """
-    edges = np.array(adjacency_matrix)[:, :2]
+    # reshape: an empty neighbor list (no edges at all) is a 1-d array
+    edges = np.array(adjacency_matrix).reshape(-1, 3)[:, :2]
 
     if clustering == 'DBSCAN':
         a = adjacency_matrix
